@@ -3,6 +3,7 @@
 package otr3
 
 import (
+	"sort"
 	"bytes"
 	"crypto/sha256"
 	"fmt"
@@ -33,6 +34,7 @@ func c20PkgHash() (total [32]byte, per map[string][32]byte) {
 			defer func() {
 				if r := recover(); r != nil {
 					fmt.Fprintf(h, "unwalkable:%v", r)
+					c20Unwalkable.Store(v.Name, fmt.Sprint(r))
 				}
 			}()
 			rv := reflect.ValueOf(v.Ptr).Elem()
@@ -49,6 +51,9 @@ func c20PkgHash() (total [32]byte, per map[string][32]byte) {
 			})
 			// scalars and headers (length and capacity of slices, integers, strings)
 			fmt.Fprintf(h, "|%s", c20Shallow(rv))
+			// everything reachable, of any type (integers and arrays inside structs behind pointers, interfaces and
+			// maps: e.g. the internal state of a shared hash.Hash)
+			fmt.Fprintf(h, "|%x", verifHash(v.Ptr))
 		}()
 		var s [32]byte
 		copy(s[:], h.Sum(nil))
@@ -59,6 +64,9 @@ func c20PkgHash() (total [32]byte, per map[string][32]byte) {
 	copy(total[:], all.Sum(nil))
 	return
 }
+
+// package-level variables whose content could not be walked completely (reported in the evidence)
+var c20Unwalkable sync.Map
 
 func c20Shallow(v reflect.Value) string {
 	switch v.Kind() {
@@ -317,6 +325,10 @@ func init() {
 				r.explore(verifC20Sys(id, r.Seed))
 			}
 			r.Extra["package_level_variables_watched"] = len(verifPkgVars)
+			unw := []string{}
+			c20Unwalkable.Range(func(k, v interface{}) bool { unw = append(unw, fmt.Sprintf("%v: %v", k, v)); return true })
+			sort.Strings(unw)
+			r.Extra["package_level_variables_not_fully_walked"] = unw
 			out, races := c20RunRaceBinary(r.Seed)
 			r.Extra["race_detector_pass"] = strings.TrimSpace(out)
 			if races > 0 {
